@@ -98,12 +98,12 @@ Definition modelled_sites_match (sites : list logsite) : bool :=
 (* the structural facts around PASS that the model and the whitelist rely on *)
 Definition password_use_ok (u : string * string) : bool :=
   (String.eqb (fst u) "login" && String.prefix "concat:" (snd u))
-  || (String.eqb (fst u) "context" && String.eqb (snd u) "arg:client.login").
+  || (String.eqb (fst u) "context" && String.eqb (snd u) "arg:@obj.login").
 
 Definition check_pass_facts
     (translator_ok : bool) (censor : list text) (guard_count : Z)
     (called_default returns_lowered replies_literal : bool)
-    (sinks deco_sinks disp_sinks : list string) (verb_var rest_var : string)
+    (sinks deco_sinks disp_sinks : list string) (lookup_by_parsed_verb : bool)
     (unknown_names : list string)
     (prefix : text) (k : Z) (forwards : bool)
     (pw_uses raises : list (string * string)) : bool :=
@@ -114,10 +114,16 @@ Definition check_pass_facts
   && returns_lowered                                  (* the dispatcher looks up cmd.lower(): same key as the censor test *)
   && replies_literal                                  (* every reply of the PASS handler is a pair of literals *)
   && strs_subset sinks ["self.user_manager.authenticate"]   (* rest of PASS only goes to authenticate *)
-  && strs_subset deco_sinks ["f"]                     (* the decorator only passes rest through *)
-  && strs_subset disp_sinks ["f"]                     (* the dispatcher only hands rest to the handler *)
-  && strs_subset unknown_names [verb_var]             (* the 502 text mentions the verb only *)
-  && negb (String.eqb verb_var rest_var)
+  (* locals are named by their ROLE (what they are bound to), never by their spelling in the source:
+     @wrapped = the function ConnectionConditions.__call__ decorates, @handler = the local bound to
+     self.commands_mapping.get(@verb), (@verb, @rest) = the pair unpacked from the parse_command task's result *)
+  && strs_subset deco_sinks ["@wrapped"]              (* the decorator only passes rest through *)
+  && strs_subset disp_sinks ["@handler"]              (* the dispatcher only hands rest to the handler *)
+  && lookup_by_parsed_verb                            (* the handler of a line is commands_mapping.get(<the verb parse_command
+                                                         returned>), the dispatcher's only read of the mapping, and neither verb,
+                                                         rest nor handler is re-bound: the handler a line REACHES is decided by
+                                                         the very key the censor tested (no alias / prefix / fallback lookup) *)
+  && strs_subset unknown_names ["@verb"]              (* the 502 text mentions the verb only *)
   && text_eqb (lower prefix) (VERB_PASS ++ [SP])%list   (* login sends "<PASS spelling> " + password *)
   && (k =? Z.of_nat (List.length prefix))%Z           (* ... censored from exactly the end of that prefix *)
   && forwards
